@@ -61,10 +61,15 @@ def run(prop, repo, verif, R):
         scratch = tempfile.mkdtemp(prefix="verif-selftest-")
         try:
             _copy_tree(repo, scratch)
-            ap = subprocess.run(["git", "apply", "--whitespace=nowarn", patch], cwd=scratch, stdout=subprocess.PIPE, stderr=subprocess.STDOUT, text=True)
-            if ap.returncode != 0:
-                ap = subprocess.run(["patch", "-p1", "--no-backup-if-mismatch", "-s", "-f", "-i", patch], cwd=scratch, stdout=subprocess.PIPE, stderr=subprocess.STDOUT, text=True)
-            if ap.returncode != 0:
+            # patch.diff is relative to the pinned commit; patch.head.diff is the same change ported onto the repaired tree
+            ap = None
+            for cand in (patch, patch.replace("patch.diff", "patch.head.diff")):
+                if not os.path.exists(cand):
+                    continue
+                ap = subprocess.run(["git", "apply", "--whitespace=nowarn", cand], cwd=scratch, stdout=subprocess.PIPE, stderr=subprocess.STDOUT, text=True)
+                if ap.returncode == 0:
+                    break
+            if ap is None or ap.returncode != 0:
                 R.selftests.append({"seed": name, "outcome": "skipped: the patch does not apply to the current tree (the code it changes was edited since it was recorded)"})
                 print("selftest %s: skipped (patch does not apply to the current tree)" % name)
                 continue
